@@ -100,6 +100,15 @@ CHECKS = {
           "once and nothing is released twice. The tie wraps malloc/calloc/posix_memalign/mmap/free/munmap at link time and, for 23 entry points (raw, str, str_verify right/wrong password, needs_rehash, both "
           "algorithms and scrypt, guarded allocation), fails every request position alone and all from it on; return code, the full event sequence, live-block count and hash-string production must equal the model."),
     note=NOTE_COMMON + "failure is injected at the C library boundary; kernel OOM behaviour is out of scope."),
+ "C10": dict(
+    category="proof", design_ref="DESIGN.md §3.10",
+    technique="Lean 4 theorems on the CPUID/XCR0 decoder model + kernel-checked (decide) selection-soundness obligations over picker tables regenerated from the source by a translator on every run + exhaustive decoder co-simulation through a guarded hook + shared-corpus correspondence on every configuration",
+    text=("The feature decoder is modelled and proved sound (a reported feature implies its CPUID bit and, for AVX/AVX2/AVX-512F, the XSAVE/OSXSAVE bits and OS-enabled XCR0 state; avx512f -> avx2 -> avx) and tied to "
+          "the code by running all 2^18 combinations of the relevant register bits through hook H2. The implementation pickers, aes256gcm_is_available and each selectable implementation's target ISA are regenerated "
+          "from /repo's source for every build variant; the Lean kernel checks that for every architecturally closed feature set each picker selects code whose ISA is present, and the portable code with no features. "
+          "Byte-identical results are checked by running one shared corpus (sub-sampled C01/C03/C04/C14/C15/C16/C18 families) under 8 CPU masks and 4 build variants against the model; reported flags must be a subset "
+          "of /proc/cpuinfo and AES-256-GCM availability must equal pclmul & aesni & avx."),
+    note=NOTE_COMMON + "translator (tools/c2lean_pickers.py, regex over gcc -E output) and the hand-stated ISA of the two assembly implementations are trusted; outputs per configuration are sampled, not proved."),
 }
 
 NOT_YET = {}
